@@ -13,3 +13,8 @@ claim("C11",
 
 _PENDING = "static check designed (DESIGN.md section 6) but not yet built/validated in this round; not claimed until its rules are exact"
 NOT_APPLICABLE = {f"C{i:02d}": _PENDING for i in range(1, 21)}
+
+claim("C04",
+ "Static, exhaustive over the source: for every rule set and both error-policy values, decides the loop discipline of Execute, ExecuteWithStopTagDirect and the sorted selected variants (plus the error policy of the as-given pair): comparator direction of every sort of rule entities (10 sites), the order source of each loop (container list or a local slice sorted on all paths), the whole list is ranged, exactly one execution per iteration, the only exits are loop end / stop-on-error return / stop-tag break, failures are collected under continue-on-error, collected errors surface after the loop. Right level because order, exactly-once and the error policy are visible in the shape of one loop that every execution passes through.",
+ "Trusted: go/types + go/ssa, sort.SliceStable. Does not evaluate rule bodies; does not prove the builder's incremental insertion keeps the list sorted (that is C08's clause).",
+ "CFG path/guard analysis of the sequential rule loops (A3), table rule on sort comparators, typestate (sorted before ranged) over go/ssa")
